@@ -60,6 +60,25 @@ func replayOne(rp bx.Replay) string {
 	if f := replayers[rp.Property]; f != nil {
 		return f(rp)
 	}
+	// cheap properties: re-run the whole (quick) exploration in this process and look for the key
+	switch rp.Property {
+	case "C06", "C07", "C08", "C11", "C12", "C14", "C15", "C16":
+		if p := Lookup(rp.Property); p != nil {
+			c := bx.New(rp.Property, "quick", 0, 1, 0, time.Time{})
+			SetCtx(c)
+			p.Run(c)
+			for _, f := range c.Result().Findings {
+				if f.Key == rp.Key {
+					return rp.Observed
+				}
+			}
+			return "finding " + rp.Key + " does not fire when the quick exploration is re-run"
+		}
+	case "C18":
+		if rp.Entry == "schedule" {
+			return replayC18Schedule(rp)
+		}
+	}
 	return "(replay of this entry kind is not automated; the file holds the value / operation list to re-run by hand)"
 }
 
